@@ -123,24 +123,31 @@ def _k1_job(job):
         part.paths += 1
         if pr.inconclusive: part.inconc(pr.inconclusive); return
         s = z3.Solver(); s.add(*pr.pc)
-        t = time.time(); r = s.check(); part.solver_s += time.time() - t; part.queries += 1
-        if r != z3.sat: return
-        m = s.model(); part.nontrivial += 1
-        opsn = [TT[o] if isinstance(o, int) else TT[m.eval(o, True).as_long()] for o in sym['ops']]
-        unary = TT[m.eval(sym['un'], True).as_long()] if sym['un'] is not None else None
-        exp = expected(variant, opsn, unary)
-        src = source_of(variant, opsn, unary)
-        role = 'C01/K1/%s/%s' % (variant, '_'.join(opsn + ([unary] if unary else [])))
-        if pr.panic:
-            part.add(role + '/panic', 'expression parser panics on `%s`: %s' % (src, pr.panic.msg), {'expr': src}, ('expr', (src, json.dumps(exp)))); return
-        res = pr.result
-        if res.disc != 0:
-            part.add(role, 'well-formed expression `%s` is rejected' % src, {'expr': src, 'expected': exp}, ('expr', (src, json.dumps(exp)))); return
-        got = shape(M, P, res.f[0])
-        if got != exp and json.loads(json.dumps(got)) != json.loads(json.dumps(exp)):
-            part.add(role, 'expression `%s` parses to %s, Annex B.3.1 requires %s' % (src, got, exp), {'expr': src, 'got': got, 'expected': exp}, ('expr', (src, json.dumps(exp))))
-        elif len(part.validate) < 2: part.validate.append(('expr', (src, json.dumps(exp))))
-        if len(part.samples) < 1: part.samples.append({'expr': src, 'tree': got})
+        for o in sym['ops']:
+            if not isinstance(o, int): s.add(z3.Or([o == TT.index(x) for x in opset]))
+        if sym['un'] is not None: s.add(z3.Or(sym['un'] == TT.index('Minus'), sym['un'] == TT.index('Not')))
+        part.nontrivial += 1
+        free = [o for o in sym['ops'] if not isinstance(o, int)] + ([sym['un']] if sym['un'] is not None else [])
+        from framework import all_models
+        t = time.time(); models = all_models(s, free, limit=300); part.solver_s += time.time() - t; part.queries += 1 + (len(models) if models else 300)
+        if models is None: part.inconc('a path leaves more than 300 operator assignments undetermined'); return
+        got = None
+        if not pr.panic and pr.result.disc == 0: got = shape(M, P, pr.result.f[0])
+        for vals in models:
+            vm = {id(t_): v for t_, v in zip(free, vals)}
+            opsn = [TT[o] if isinstance(o, int) else TT[vm[id(o)].as_long()] for o in sym['ops']]
+            unary = TT[vm[id(sym['un'])].as_long()] if sym['un'] is not None else None
+            exp = expected(variant, opsn, unary)
+            src = source_of(variant, opsn, unary)
+            role = 'C01/K1/%s/%s' % (variant, '_'.join(opsn + ([unary] if unary else [])))
+            if pr.panic:
+                part.add(role + '/panic', 'expression parser panics on `%s`: %s' % (src, pr.panic.msg), {'expr': src}, ('expr', (src, json.dumps(exp)))); continue
+            if pr.result.disc != 0:
+                part.add(role, 'well-formed expression `%s` is rejected' % src, {'expr': src, 'expected': exp}, ('expr', (src, json.dumps(exp)))); continue
+            if got != exp and json.loads(json.dumps(got)) != json.loads(json.dumps(exp)):
+                part.add(role, 'expression `%s` parses to %s, Annex B.3.1 requires %s' % (src, got, exp), {'expr': src, 'got': got, 'expected': exp}, ('expr', (src, json.dumps(exp))))
+            elif len(part.validate) < 2: part.validate.append(('expr', (src, json.dumps(exp))))
+            if len(part.samples) < 1: part.samples.append({'expr': src, 'tree': got})
     M.explore(entry, on_path)
     part.queries += M.stats['smt']; part.encoded = set(M.encoded); part.models = set(M.models_used)
     return part
